@@ -712,3 +712,58 @@ func (d *simDirect) Close() error {
 	w.mu.Unlock()
 	return d.emitter.Close()
 }
+
+// CloneDurable builds a new world containing one peer with the same identity
+// whose durable state (blocks, caches) is exactly the first n persistence
+// effects of p: the state a crash after the n-th effect leaves behind.
+func (p *Peer) CloneDurable(n int) *Peer {
+	w := NewWorld()
+	q := w.AddPeer(p.Name)
+	if ks, ok := peerKeystores[p]; ok {
+		peerKeystores[q] = ks
+	}
+	p.w.mu.Lock()
+	effs := append([]Effect{}, p.Effects...)
+	p.w.mu.Unlock()
+	if n > len(effs) {
+		n = len(effs)
+	}
+	data := map[string]map[string][]byte{}
+	for _, e := range effs[:n] {
+		switch e.Kind {
+		case "block":
+			q.blocks[e.Cid.KeyString()] = e.Data
+		case "put":
+			if data[e.Cache] == nil {
+				data[e.Cache] = map[string][]byte{}
+			}
+			data[e.Cache][e.Key] = e.Data
+		case "delete":
+			delete(data[e.Cache], e.Key)
+		}
+	}
+	q.Caches.Restore(data)
+	return q
+}
+
+// EffectCount returns the number of persistence effects issued so far.
+func (p *Peer) EffectCount() int {
+	p.w.mu.Lock()
+	defer p.w.mu.Unlock()
+	return len(p.Effects)
+}
+
+// EffectKinds summarises the effect log (for evidence samples).
+func (p *Peer) EffectKinds() []string {
+	p.w.mu.Lock()
+	defer p.w.mu.Unlock()
+	out := []string{}
+	for _, e := range p.Effects {
+		if e.Kind == "block" {
+			out = append(out, "block")
+		} else {
+			out = append(out, e.Kind+":"+e.Key)
+		}
+	}
+	return out
+}
